@@ -164,3 +164,141 @@ def call_hook(node, st, interp):
 
 def _stringy(v):
   return isinstance(v, Str) or (isinstance(v, Const) and isinstance(v.v, str))
+
+
+# ---------------------------------------------------------------------------
+# static (interpreter-free) skeletons for the expression-level balance check
+
+HOLE = object()
+
+
+class Hole(object):
+
+  def __init__(self, node):
+    self.node = node
+    self.text = norm(node, 40)
+
+  def __repr__(self):
+    return '<%s>' % self.text
+
+
+def static_skeletons(e, limit=16):
+  """All alternative skeletons (lists of str / Hole) of a string-building
+  expression; conditional expressions fork, everything unknown is a hole."""
+  if isinstance(e, ast.Constant):
+    if isinstance(e.value, str):
+      return [[e.value]]
+    return [[Hole(e)]]
+  if isinstance(e, ast.JoinedStr):
+    alts = [[]]
+    for v in e.values:
+      if isinstance(v, ast.Constant):
+        alts = [a + [v.value] for a in alts]
+      else:
+        alts = [a + [Hole(v.value)] for a in alts]
+    return alts
+  if isinstance(e, ast.BinOp) and isinstance(e.op, ast.Add):
+    ls, rs = static_skeletons(e.left, limit), static_skeletons(e.right, limit)
+    return [l + r for l in ls for r in rs][:limit]
+  if isinstance(e, ast.BinOp) and isinstance(e.op, ast.Mod):
+    tpl = const_str(e.left)
+    if tpl is not None:
+      args = e.right.elts if isinstance(e.right, ast.Tuple) else [e.right]
+      return [_percent_static(tpl, args)]
+    return [[Hole(e)]]
+  if isinstance(e, ast.Call) and isinstance(e.func, ast.Attribute) and \
+      e.func.attr == 'format' and const_str(e.func.value) is not None:
+    return [_brace_static(const_str(e.func.value), e)]
+  if isinstance(e, ast.Call) and isinstance(e.func, ast.Attribute) and \
+      e.func.attr == 'join' and const_str(e.func.value) is not None:
+    # sep.join(xs): balanced pieces joined by a (checked) separator
+    return [[Hole(e)]]
+  if isinstance(e, ast.IfExp):
+    return (static_skeletons(e.body, limit) + static_skeletons(e.orelse, limit))[:limit]
+  return [[Hole(e)]]
+
+
+def _percent_static(tpl, args):
+  out = []
+  i = 0
+  k = 0
+  n = len(tpl)
+  while i < n:
+    j = tpl.find('%', i)
+    if j < 0:
+      out.append(tpl[i:])
+      break
+    out.append(tpl[i:j])
+    if j + 1 < n and tpl[j + 1] == '%':
+      out.append('%')
+      i = j + 2
+      continue
+    m = j + 1
+    while m < n and tpl[m] in '#0- +.0123456789':
+      m += 1
+    if m >= n:
+      break
+    if k < len(args):
+      a = args[k]
+      sub = static_skeletons(a)
+      out += sub[0] if len(sub) == 1 else [Hole(a)]
+    else:
+      out.append(Hole(ast.Constant(value=None)))
+    k += 1
+    i = m + 1
+  return [p for p in out if not (isinstance(p, str) and p == '')]
+
+
+def _brace_static(tpl, call):
+  out = []
+  auto = 0
+  kw = {k.arg: k.value for k in call.keywords if k.arg}
+  for lit, field, spec, conv in string.Formatter().parse(tpl):
+    if lit:
+      out.append(lit)
+    if field is None:
+      continue
+    head = field.split('.')[0].split('[')[0]
+    node = None
+    if head == '':
+      node = call.args[auto] if auto < len(call.args) else None
+      auto += 1
+    elif head.isdigit():
+      node = call.args[int(head)] if int(head) < len(call.args) else None
+    else:
+      node = kw.get(head)
+    if node is None:
+      out.append(Hole(ast.Constant(value=None)))
+    else:
+      sub = static_skeletons(node)
+      out += sub[0] if len(sub) == 1 else [Hole(node)]
+  return out
+
+
+def scan_skeleton(parts, braces=True):
+  """Scan a skeleton; returns (final ScanState, [(hole, quote state)])."""
+  st = sqllex.ScanState()
+  holes = []
+  for p in parts:
+    if isinstance(p, str):
+      sqllex.scan(p, st, braces=braces)
+      if st.error:
+        break
+    else:
+      holes.append((p, st.quote))
+  return st, holes
+
+
+def template_as_text(t):
+  """Replace %s / {n} / {name} placeholders of a template by an atom."""
+  if '%s' in t:
+    return t.replace('%%', '\x00').replace('%s', 'X').replace('\x00', '%')
+  try:
+    out = []
+    for lit, field, spec, conv in string.Formatter().parse(t):
+      out.append(lit)
+      if field is not None:
+        out.append('X')
+    return ''.join(out)
+  except ValueError:
+    return t
